@@ -585,7 +585,31 @@ def c12_11(ctx):
     return c04_2(ctx) + helper_codec_faithful(ctx) + c06_7(ctx)
 
 
+def c12_12(ctx):
+    """MEMO: no method of the modules this property is anchored in answers from a value remembered from an earlier argument or an
+    earlier state of the object (confirmed caches of the reference tree: sa/memo.py CONFIRMED_CACHES)"""
+    from sa.memo import cache_obligation
+    return cache_obligation(ctx, ["taproot", "pecc", "witness", "phash"], "a leaf hash, merkle root or tweak computed once would be returned after the script or internal key changed")
+
+
+def c12_13(ctx):
+    """SET-ORDER: no ordered result (list, serialisation, yielded sequence) of the modules this property is anchored in takes its
+    order from the iteration order of a set"""
+    from sa.setorder import setorder_obligation
+    return setorder_obligation(ctx, ["taproot", "pecc", "witness", "phash"], "the same inputs give different output from run to run")
+
+
+def c12_14(ctx):
+    """SHARED necessary conditions over the modules this property is anchored in: FALSY-DEFAULT, MUTABLE-DEFAULT, IDENTITY, ALIAS,
+    CTOR-FORWARD (sa/shared.py)"""
+    from sa.shared import shared_obligations
+    return shared_obligations(ctx, ["taproot", "pecc", "witness", "phash"], "the result would depend on something other than the arguments and the object's current state")
+
+
 OBLIGATIONS = [
+    ("C12.14", "SHARED", c12_14),
+    ("C12.13", "SET-ORDER", c12_13),
+    ("C12.12", "MEMO", c12_12),
     ("C12.7", "SIBLING read-set", c12_7),
     ("C12.6", "MEMO", c12_6),
     ("C12.1", "SIBLING", c12_1),
